@@ -37,6 +37,9 @@ CHECKS = {
  'C13': dict(cat='exploration', tech='online comparison of the hooked token stream (H1 token-per-line dump) with a reference lexer written from C11 6.4; exhaustive short punctuator strings and keyword perturbations',
              text='All 406,900 strings of length <= 4 over the punctuator alphabet, every keyword spelling with all one-character perturbations and prefixes, literal prefixes x quotes, pp-number forms x neighbours, and random token soups with comments, form feeds and backslash-newline at arbitrary positions are lexed by the hooked compiler and compared token by token (class, spelling, preceded-by-space) with vf.reflex; without the hook, `int <word> = 1;` must be accepted exactly for non-keywords.',
              note='exhaustive=true for the enumerated parts. vf.reflex encodes C11 6.4 plus the documented deviations (no di/trigraphs, `::`, C23/GNU keyword spellings).', ref='4/C13'),
+ 'C12': dict(cat='exploration', tech='differential token-stream comparison (hook H1) against gcc cpp re-lexed by the reference lexer; online quiescence monitor (hook H2); IL equality between a macro-ised program and its expanded text',
+             text='Generated macro sets (object-like, function-like with 0-4 parameters, variadic, # operator, mutual and self reference, #undef/#define histories) are invoked over free token sequences with nested, multi-line, parenthesised and string-containing arguments and function-like names without "("; the expanded token stream must equal gcc cpp\'s; H2 checks at every quiescent point that no macro is still marked as being expanded; valid programs are macro-ised and must compile to the same IL as their cpp-expanded text; benign/incompatible redefinitions are judged against gcc -pedantic-errors.',
+             note='Units gcc cpp rejects (C11 pedantic) are skipped; nestings 6.10.3.4p4 leaves unspecified are not generated; the stringification defect K14 is recognised by its exact shape only.', ref='4/C12'),
  'C03': dict(cat='exploration', tech='online validator (re-implemented QBE parse/typecheck/SSA rules) over every accepted output; strace write-fault injection',
              text='Every module printed with exit status 0 (suite, corpus, generated, odd-shaped and mutated inputs, cproc\'s own sources; three targets) is parsed and checked by an independent IL validator; output faults are injected at the k-th write.',
              note='Trusted: vf.ilcheck (silent on the 159 stored .qbe files and the self-compiled IL); data sizes vs C objects are judged by C06/C07.', ref='4/C03'),
